@@ -1,0 +1,15 @@
+//go:build verif
+
+package agent
+
+import (
+	"github.com/postalsys/muti-metroo/internal/flood"
+	"github.com/postalsys/muti-metroo/internal/routing"
+)
+
+// VerifFlooder exposes the flooder built by initComponents from the agent's
+// configuration (verification harness only).
+func (a *Agent) VerifFlooder() *flood.Flooder { return a.flooder }
+
+// VerifRouteManager exposes the agent's routing manager.
+func (a *Agent) VerifRouteManager() *routing.Manager { return a.routeMgr }
